@@ -619,6 +619,7 @@ def _alternatives(el, name, text):
         elif v % 1000 == 0:
             out.append("%d%%" % (v // 1000))
         out += {"1": ["true"], "0": ["false"]}.get(text, [])
+        out.append(("-00" + text[1:]) if text.startswith("-") else "00" + text)  # leading zeros: the same number
     else:
         out += {"true": ["1"], "false": ["0"]}.get(text, [])
     good = []
@@ -669,14 +670,15 @@ def run_api_lexical(unit, seed, acc):
         for k, (v, vcls) in enumerate(vals[: unit["per_row"]]):
             try:
                 sl = c09.fresh_slide(prs, row, env.rng("C09", "fixture", row.id, k))
+                roots = [prs._element] if row.path.startswith("prs") else [sl._element]
+                if ".chart" in row.path:
+                    roots.append(c09.resolve(row.path[: row.path.index(".chart") + 6], prs, sl)._chartSpace)
+                # (taken before the object is resolved: reaching a point's format or label already writes its c:idx)
+                before = {(ri, r_.getroottree().getpath(e), a): tx for ri, r_ in enumerate(roots) for e in r_.iter() if isinstance(e.tag, str) for a, tx in e.attrib.items()}
                 obj = c09.resolve(row.path, prs, sl)
             except Exception:  # noqa
                 acc.count("api_lexical:fixture_failed")
                 continue
-            roots = [prs._element] if row.path.startswith("prs") else [sl._element]
-            if ".chart" in row.path:
-                roots.append(c09.resolve(row.path[: row.path.index(".chart") + 6], prs, sl)._chartSpace)
-            before = {(ri, r_.getroottree().getpath(e), a): tx for ri, r_ in enumerate(roots) for e in r_.iter() if isinstance(e.tag, str) for a, tx in e.attrib.items()}
             try:
                 row.set(obj, v)
             except Exception:  # noqa  (C09 judges whether an in-domain value may raise)
@@ -686,11 +688,17 @@ def run_api_lexical(unit, seed, acc):
                 continue
             wrote = [(e, a, tx) for ri, r_ in enumerate(roots) for e in r_.iter() if isinstance(e.tag, str) for a, tx in e.attrib.items() if before.get((ri, r_.getroottree().getpath(e), a)) != tx]
             acc.count("api_lexical:assignments")
-            for e, a, tx in wrote[:4]:
+            wrote.sort(key=lambda w_: w_[0].tag.rsplit("}", 1)[1] not in ("idx", "order"))  # indices first: lookups hang on them
+            for e, a, tx in wrote[:6]:
                 for alt in _alternatives(e, a, tx):
                     e.set(a, alt)
                     try:
-                        r2 = c09.read(row, obj)
+                        try:
+                            obj2 = c09.resolve(row.path, prs, sl)  # resolved anew: lookups by index happen on the way
+                        except Exception as ex:  # noqa
+                            r2 = c09.Raises(type(ex).__name__)
+                        else:
+                            r2 = c09.read(row, obj2)
                     finally:
                         e.set(a, tx)
                     acc.count("api_lexical:alternative_forms_read")
